@@ -154,6 +154,28 @@ fn dec_mul_add(d: &str, m: u64, a: u64) -> String {
     String::from_utf8(out).unwrap()
 }
 
+/// decimal string minus a small number (d >= a)
+fn dec_sub_small(d: &str, a: u64) -> String {
+    let mut digits: Vec<i64> = d.bytes().map(|c| (c - b'0') as i64).collect();
+    let mut borrow = a as i64;
+    for x in digits.iter_mut().rev() {
+        let v = *x - borrow % 10;
+        borrow /= 10;
+        if v < 0 {
+            *x = v + 10;
+            borrow += 1;
+        } else {
+            *x = v;
+        }
+        if borrow == 0 {
+            break;
+        }
+    }
+    let s: String = digits.iter().map(|x| (b'0' + *x as u8) as char).collect();
+    let t = s.trim_start_matches('0');
+    if t.is_empty() { "0".to_string() } else { t.to_string() }
+}
+
 const SYM: [char; 6] = ['0', '1', '7', ',', '.', '-'];
 
 fn nth_string(len: usize, mut k: u64) -> String {
@@ -364,6 +386,34 @@ fn run(ctx: &mut Ctx) {
                         let (ip, fp) = digits.split_at(digits.len() - point);
                         let s = format!("{}{}{}{}", if neg { "-" } else { "" }, ip, if point > 0 { "." } else { "" }, fp);
                         let _ = mi;
+                        ctx.case(
+                            || format!("PrettyDecimal::from_str({:?})", s),
+                            || {
+                                let exp = reference(&s);
+                                let got = PrettyDecimal::from_str(&s).map_err(|e| e.to_string());
+                                judge(&s, &exp, &got)
+                            },
+                        );
+                    }
+                }
+            }
+        }
+    }
+    // family 2c: the windows just BELOW and above every power of two at which a fixed-width accumulator, a sign bit or
+    // the 96-bit mantissa changes behaviour: 2^k - d and 2^k + d for k in {63, 64, 95, 96, 127, 128}, small d, and the
+    // same scaled by the point position (a reader that casts, truncates or wraps maps them onto small or negative values)
+    for pow in ["9223372036854775808", "18446744073709551616", "39614081257132168796771975168", "79228162514264337593543950336", "170141183460469231731687303715884105728", "340282366920938463463374607431768211456"] {
+        for mult in [1u64, 2, 3] {
+            for delta in [-700i64, -5, -1, 0, 1, 5, 700] {
+                for point in [0usize, 2, 28] {
+                    for neg in [false, true] {
+                        let base = dec_mul_add(pow, mult, 0);
+                        let digits = if delta < 0 { dec_sub_small(&base, (-delta) as u64) } else { dec_mul_add(&base, 1, delta as u64) };
+                        if digits.len() > 45 || point >= digits.len() {
+                            continue;
+                        }
+                        let (ip, fp) = digits.split_at(digits.len() - point);
+                        let s = format!("{}{}{}{}", if neg { "-" } else { "" }, ip, if point > 0 { "." } else { "" }, fp);
                         ctx.case(
                             || format!("PrettyDecimal::from_str({:?})", s),
                             || {
